@@ -146,6 +146,7 @@ pub fn run(name: &str, a: &[u64]) -> Vec<u64> {
         "dec_ops" => crate::codec::dec_ops(a),
         "dense_solve_ops" => std::iter::once(1u64).chain(crate::codec::solve_ops(&[a[0], 1 << 31])).collect(),
         "variant_packets" => crate::codec::variant_packets(a),
+        "col_indep" => crate::codec::col_indep(a),
         "solve_ops" => crate::codec::solve_ops(a),
         "bm_dense" => crate::bitmat::dense(a),
         "bm_sparse" => crate::bitmat::sparse(a),
